@@ -194,7 +194,9 @@ func (r qres) str(q string) string {
 		if !r.ok {
 			return "none"
 		}
-		return hitStr(r.h)
+		// the parameter, not the identity of the object: with equal parameters any of the
+		// closest objects is a correct answer
+		return hlib.RatStr(r.h.s)
 	case "tri":
 		return idsStr(r.ids)
 	}
